@@ -7,7 +7,12 @@ use super::super::{
     mutiny_stream::MutinyStream,
     types::FullDuplexUniChannel,
 };
+#[cfg(not(feature = "verif"))]
 use std::{fmt::Debug, time::Duration, sync::{Arc, atomic::{AtomicU32, Ordering::Relaxed}}};
+#[cfg(feature = "verif")]
+use std::{fmt::Debug, time::Duration, sync::{Arc, atomic::Ordering::Relaxed}};
+#[cfg(feature = "verif")]
+use crate::verif::AtomicU32;
 use std::future::Future;
 use std::marker::PhantomData;
 use futures::future::BoxFuture;
